@@ -133,7 +133,7 @@ ACTOR_KINDS = ["cancel", "add_cb", "add_cb_nested", "add_cb_raising", "result", 
                "as_completed", "state"]
 
 
-def make_prog(subject, variant, actors):
+def make_prog(subject, variant, actors, order="completer-first"):
     v = subjects()[subject]["variants"][variant]
     v = dict(v, setup=list(v["setup"]) + [["sleep", 0.01], ["add_cb", "S", "probe"]])
     threads = [list(v["complete"])]
@@ -144,11 +144,17 @@ def make_prog(subject, variant, actors):
             ops.append(actor_op(a, k))
             k += 1
         threads.append(ops)
-    return {"setup": v["setup"], "threads": threads, "settle": 3, "final": [["state", "S"], ["result", "S", 0], ["state", "S"]]}
+    if order == "actors-first":
+        # the completer is the last thread to get going, so a single pre-emption can park an actor in
+        # the middle of its call and let the completion run through
+        threads = threads[1:] + threads[:1]
+    return {"setup": v["setup"], "threads": threads, "settle": 3, "final": [["state", "S"], ["result", "S", 0], ["state", "S"]],
+            "completer": "t%d" % (len(threads) - 1) if order == "actors-first" else "t0"}
 
 
 def evaluate(case):
-    prog = make_prog(case["subject"], case["variant"], case["actors"])
+    prog = make_prog(case["subject"], case["variant"], case["actors"], case.get("order", "completer-first"))
+    completer = prog.pop("completer")
     s, w = progs.run_case({"prog": prog, "tape": case.get("tape", []), "clock": case.get("clock", "exact"), "max_steps": 80000, "max_vtime": 500})
     info = {"end": s.end_reason, "steps": s.steps, "preemptions": s.preemptions}
     viols = []
@@ -165,8 +171,9 @@ def evaluate(case):
         return viols, info
     h = world.History(s, w)
     ops = h.oplist()
+    joined_seq = [e[0] for e in s.events if e[3] == "joined"][0]
     # completion interval: the completer's ops
-    comp_ops = [o for o in ops if o["thread"] == "t0" and o["call_seq"] > 0 and o["op"][0] in ("run", "complete", "sleep")]
+    comp_ops = [o for o in ops if o["thread"] == completer and o["call_seq"] > 0 and o["op"][0] in ("run", "complete", "sleep")]
     comp_call = min([o["call_seq"] for o in comp_ops] or [0])
     comp_ret = max([o["ret_seq"] or 0 for o in comp_ops] or [0])
     # (2) state samples
@@ -250,7 +257,7 @@ def evaluate(case):
     info["t_term"] = t_term
     if terminal and t_term is not None:
         for o in ops:
-            if o["op"][0] in ("result", "exception", "wait", "as_completed") and o["op"][1] in ("S", ["S"]) and o["thread"] != "t0":
+            if o["op"][0] in ("result", "exception", "wait", "as_completed") and o["op"][1] in ("S", ["S"]) and o["thread"] != completer and o["call_seq"] < joined_seq:
                 r = o["result"]
                 if o["ret_t"] is None or o["ret_t"] <= t_term + 0.01:
                     continue
@@ -267,7 +274,7 @@ def evaluate(case):
     # non-triviality: an actor op overlapping the completing ops, or a waiter parked before completion
     nt = False
     for o in ops:
-        if o["thread"] != "t0" and o["op"][0] in ("cancel", "add_cb", "result", "exception", "wait", "as_completed") and o["call_seq"] > 0:
+        if o["thread"] != completer and o["op"][0] in ("cancel", "add_cb", "result", "exception", "wait", "as_completed") and o["call_seq"] > 0:
             if o["ret_seq"] is not None and o["call_seq"] < comp_ret and o["ret_seq"] > comp_call:
                 nt = True
     info["nt"] = nt
@@ -293,16 +300,18 @@ def sweep_cases():
     out = []
     for subj, d in sorted(subjects().items()):
         for variant in sorted(d["variants"]):
-            for a in ("cancel", "add_cb", "result", "wait_all", "wait_first", "as_completed"):
+            for a in ("cancel", "add_cb", "result", "wait_all", "as_completed"):
                 out.append({"subject": subj, "variant": variant, "actors": [[a, "state"]]})
+            for a in ("cancel", "add_cb"):
+                out.append({"subject": subj, "variant": variant, "actors": [[a, "state"]], "order": "actors-first"})
             out.append({"subject": subj, "variant": variant, "actors": [["cancel"], ["add_cb", "wait_exc"]]})
     return out
 
 
 def shards(tier, seed):
     cases = sweep_cases()
-    nsh = 24
-    specs = [{"mode": "sweep", "part": i, "parts": nsh, "picks": [0] if tier == "quick" else [0, 1], "double": False} for i in range(nsh)]
+    nsh = 32
+    specs = [{"mode": "sweep", "part": i, "parts": nsh, "picks": [0] if tier == "quick" else [0, 1], "double": tier == "thorough"} for i in range(nsh)]
     n = 250 if tier == "quick" else 4000
     for i in range(8):
         specs.append({"mode": "random", "seed": seed * 1000 + i, "n": n})
@@ -322,6 +331,7 @@ def case_strategy():
         nact = draw(st.integers(1, 3))
         actors = [draw(st.lists(st.sampled_from(ACTOR_KINDS), min_size=1, max_size=4)) for _ in range(nact)]
         return {"subject": subj, "variant": variant, "actors": actors, "tape": draw(gen.tapes(8)),
+                "order": draw(st.sampled_from(["completer-first", "actors-first"])),
                 "clock": draw(st.sampled_from(["exact", "exact", "preempt"]))}
 
     return cases()
@@ -345,6 +355,15 @@ def run_shard(spec, ctx):
                     viols, info = evaluate(c)
                     account(ctx, c, viols, info, ["sweep"])
                     total += 1
+            # two pre-emptions (completion started -> actor started -> completion finishes): only for the
+            # add_done_callback-vs-completion pairs, second switch within a short window after the first
+            if base["actors"] == [["add_cb", "state"]] and base.get("order") is None and (spec.get("double") or base["variant"] == "error"):
+                for i in range(n + 1):
+                    for j in range(14 if spec.get("double") else 9):
+                        c = dict(base, tape=[[i, 0], [j, 0]], clock="exact")
+                        viols, info = evaluate(c)
+                        account(ctx, c, viols, info, ["sweep2"])
+                        total += 1
         ctx.exhaustive.append({"domain": "single pre-emption placements of (subject x actor-op x completion kind) programs, part %d/%d" % (spec["part"], spec["parts"]),
                                "size": total, "complete": True})
     else:
